@@ -576,6 +576,15 @@ def ins_lattice(seed, quick, resume_subsets=True):
         # min_samples larger than the number of samples with a finite likelihood (zero-likelihood region)
         assigns.append({"model": "G2hole", "min_samples": 45, "draw_iid_live": False})
         assigns.append({"model": "G2hole", "min_samples": 45})
+        # half of the samples carry a zero weight (zero prior in half of the hypercube) but a finite likelihood,
+        # with the min_samples clamp active: zero-weight samples still count towards min_samples
+        assigns.append({"model": "G2half", "min_samples": 45, "draw_iid_live": False})
+        assigns.append({"model": "G2half", "min_samples": 45})
+        # an initial design that includes the closed end of the box: the best points sit exactly on the upper
+        # edge, where the (half-open) hypercube prior is zero - finite likelihood, zero weight, clamp active
+        assigns.append({"model": "G2corner", "min_samples": 40, "draw_iid_live": False, "threshold_method": "quantile", "threshold_kwargs": {"q": 0.8}})
+        assigns.append({"model": "G2corner", "min_samples": 40, "threshold_method": "quantile", "threshold_kwargs": {"q": 0.8}})
+        assigns.append({"model": "G2half", "min_samples": 40, "threshold_method": "quantile", "threshold_kwargs": {"q": 0.8}})
         # runs that stop because the criteria are met (not at the iteration cap), also resumed at every checkpoint
         assigns.append({"stopping_criterion": "log_dZ", "tolerance": 5.0, "max_iteration": 8})
         assigns.append({"stopping_criterion": ["ratio", "ess"], "tolerance": [0.5, 1000.0], "check_criteria": "any", "max_iteration": 8})
@@ -778,7 +787,10 @@ class InsMonitor:
             if np.any(~(np.abs(logQ - s["logQ"]) <= qtol * (1 + np.abs(logQ)))):
                 i = int(np.flatnonzero(~(np.abs(logQ - s["logQ"]) <= qtol * (1 + np.abs(logQ))))[0])
                 self.err(f"{tag}:logQ-is-not-the-weighted-mixture", f"sample {i}: {s['logQ'][i]!r} vs {logQ[i]!r}")
-            if np.any(~(np.abs(s["logW"] - (s["logU"] - s["logQ"])) <= 1e-12 * (1 + np.abs(s["logQ"])))):
+            with np.errstate(invalid="ignore"):
+                w_ref = s["logU"] - s["logQ"]
+                w_same = (np.isinf(w_ref) & (w_ref == s["logW"])) | (np.abs(s["logW"] - w_ref) <= 1e-12 * (1 + np.abs(s["logQ"])))
+            if np.any(~w_same):
                 self.err(f"{tag}:logW-is-not-logU-minus-logQ")
             lu = np.asarray(model.log_prior_unit_hypercube(s), dtype=float)
             if np.any(lu != s["logU"]):
